@@ -3,6 +3,8 @@ CONSTANTS
   Lens = {1}
   H = 1
   Preface = 0
+  Peek = 0
+  MaxTimeouts = 0
   Defects = {}
 SPECIFICATION TraceSpec
 POSTCONDITION Accepted
